@@ -3,6 +3,7 @@ package p_broker
 import (
 	"encoding/json"
 	"fmt"
+	"sync"
 	"testing"
 
 	"github.com/mdzio/go-mqtt/message"
@@ -171,4 +172,143 @@ func TestC12Broker(t *testing.T) {
 			t.Fatalf("VIOLATION %s replay=%s", f, p)
 		}
 	})
+}
+
+// ---- unit "id-wrap": the identifier counter of a connection passes 65535 ----
+//
+// One subscriber receives more than 65536 QoS>0 messages (in-process
+// publishes, so the run takes about a second) and acknowledges with a lag: at
+// any moment the identifiers of the PUBLISH packets it has not acknowledged
+// yet must be non-zero and pairwise distinct - also where the counter wraps.
+
+type C12WCase struct {
+	Lag    int  `json:"lag"`    // acknowledgements are held back until this many are outstanding
+	Extra  int  `json:"extra"`  // messages beyond 65536
+	QoS2   bool `json:"qos2"`   // subscription and publishes at QoS 2 (PUBREC/PUBREL/PUBCOMP) instead of 1
+	Second bool `json:"second"` // a second wrap (another 65536 messages)
+}
+
+func runC12Wrap(c C12WCase) (fail string) {
+	b, err := fix.New(16384, "")
+	if err != nil {
+		return "fixture: " + err.Error()
+	}
+	defer b.Shutdown()
+	S := b.Dial("S")
+	S.AutoAck = false
+	var mu sync.Mutex
+	outstanding := map[uint16]int{} // id -> message number
+	var order []uint16
+	seen, failed := 0, ""
+	q := byte(1)
+	if c.QoS2 {
+		q = 2
+	}
+	S.OnPacket = func(p *codec.Packet, off int64) bool {
+		switch p.Type {
+		case codec.PUBLISH:
+			if p.QoS == 0 {
+				return true
+			}
+			mu.Lock()
+			seen++
+			if failed == "" {
+				if p.PacketID == 0 {
+					failed = fmt.Sprintf("PUBLISH #%d carries packet identifier 0", seen)
+				} else if prev, dup := outstanding[p.PacketID]; dup {
+					failed = fmt.Sprintf("PUBLISH #%d has packet identifier %d, which PUBLISH #%d still has in flight (%d unacknowledged)", seen, p.PacketID, prev, len(outstanding))
+				}
+			}
+			outstanding[p.PacketID] = seen
+			order = append(order, p.PacketID)
+			var acks []byte
+			for len(order) > c.Lag {
+				id := order[0]
+				order = order[1:]
+				delete(outstanding, id)
+				t := byte(codec.PUBACK)
+				if c.QoS2 {
+					t = codec.PUBREC
+				}
+				acks = append(acks, codec.Encode(&codec.Packet{Type: t, PacketID: id})...)
+			}
+			mu.Unlock()
+			if len(acks) > 0 {
+				S.SendAsync(acks)
+			}
+			return true
+		case codec.PUBREL:
+			S.SendAsync(codec.Encode(&codec.Packet{Type: codec.PUBCOMP, PacketID: p.PacketID}))
+			return true
+		}
+		return false
+	}
+	if _, err := S.Connect(wire.ConnectPacket("wrap", true, 300)); err != nil {
+		return "subscriber connect: " + err.Error()
+	}
+	S.Send(&codec.Packet{Type: codec.SUBSCRIBE, PacketID: 1, Topics: [][]byte{[]byte("wrap/#")}, QoSs: []byte{q}})
+	if _, err := S.Barrier(); err != nil {
+		return "subscriber barrier: " + err.Error()
+	}
+	total := 65536 + c.Extra
+	if c.Second {
+		total += 65536
+	}
+	for i := 0; i < total; i++ {
+		m := message.NewPublishMessage()
+		m.SetTopic([]byte("wrap/t"))
+		m.SetPayload([]byte{byte(i), byte(i >> 8), byte(i >> 16)})
+		m.SetQoS(q)
+		if err := b.Srv.Publish(m); err != nil {
+			return fmt.Sprintf("Server.Publish #%d: %v", i, err)
+		}
+	}
+	if _, err := S.Barrier(); err != nil {
+		return fmt.Sprintf("subscriber barrier after %d messages: %v (stream error %v)", total, err, S.StreamErr())
+	}
+	mu.Lock()
+	defer mu.Unlock()
+	if failed != "" {
+		return failed
+	}
+	if seen != total {
+		return fmt.Sprintf("the subscriber received %d of %d QoS %d messages", seen, total, q)
+	}
+	return ""
+}
+
+func TestC12Wrap(t *testing.T) {
+	rec := ev.New("C12", "id-wrap")
+	defer rec.Flush()
+	if rp := ev.LoadReplay(t, "id-wrap"); rp != nil {
+		var c C12WCase
+		json.Unmarshal(rp.Case, &c)
+		if f := runC12Wrap(c); f != "" {
+			p := rec.Violation("-", "plan", f, c, nil)
+			rec.Flush()
+			t.Fatalf("VIOLATION %s replay=%s", f, p)
+		}
+		return
+	} else if ev.Replaying() {
+		t.Skip()
+	}
+	e := ev.GetEnv()
+	cases := []C12WCase{{Lag: 1, Extra: 40}, {Lag: 4, Extra: 40, QoS2: true}, {Lag: 50, Extra: 200}, {Lag: 2, Extra: 10, Second: true}}
+	if ev.Thorough() {
+		for _, lag := range []int{1, 2, 3, 7, 100, 1000} {
+			cases = append(cases, C12WCase{Lag: lag, Extra: 3000}, C12WCase{Lag: lag, Extra: 3000, QoS2: true, Second: lag%2 == 1})
+		}
+	}
+	for i, c := range cases {
+		if i%e.Shards != e.Shard {
+			continue
+		}
+		f := runC12Wrap(c)
+		rec.Case(c, true, "identifier-counter-wrapped")
+		if f != "" {
+			p := rec.Violation("-", "plan", f, c, nil)
+			rec.Flush()
+			t.Fatalf("VIOLATION %s replay=%s", f, p)
+		}
+	}
 }
